@@ -148,6 +148,41 @@ package altair
 // balance of validator k after the committee positions [0, i) have been rewarded (bit set) or penalised (bit clear) in order
 //@ defrec sync_bal(ver int, bals BalIa, idx VIdxsA, bits BitsA, pr int, k int, i int) int = ite(i <= 0, bal_at(ver, bals, k), ite(idx[i - 1] == k, ite(bl_bit(bits, i - 1), (sync_bal(ver, bals, idx, bits, pr, k, i - 1) + pr) % 18446744073709551616, ite(sync_bal(ver, bals, idx, bits, pr, k, i - 1) >= pr, sync_bal(ver, bals, idx, bits, pr, k, i - 1) - pr, 0)), sync_bal(ver, bals, idx, bits, pr, k, i - 1)))
 
+// ---------------------------------------------------------------- the epoch's attester data from altair on (C02)
+// Eligible validators (active in the previous epoch, or slashed and not yet withdrawable), the participation lists, and
+// the unslashed participating balances process_justification_and_finalization and the reward functions use:
+// previous epoch: over the validators active in the PREVIOUS epoch with the flag in previous_epoch_participation;
+// current epoch (target flag): over the validators active in the CURRENT epoch with the flag in current_epoch_participation;
+// each at least one EFFECTIVE_BALANCE_INCREMENT (get_total_balance).
+//@ sort PartViewP = *ParticipationRegistryView
+//@ ufun st_prevpart_err(StateA) bool
+//@ ufun st_prevpart(StateA) PartViewP
+//@ ufun st_curpart_err(StateA) bool
+//@ ufun st_curpart(StateA) PartViewP
+//@ ufun part_raw_err(PartViewP) bool
+//@ ufun part_raw(PartViewP) PartT
+//@ func (s AltairLikeBeaconState) PreviousEpochParticipation() (r, err)
+//@   trusted
+//@   opt noalloc
+//@   ensures (err != nil) == st_prevpart_err(s)
+//@   ensures err == nil ==> r != nil && r == st_prevpart(s)
+//@ func (s AltairLikeBeaconState) CurrentEpochParticipation() (r, err)
+//@   trusted
+//@   opt noalloc
+//@   ensures (err != nil) == st_curpart_err(s)
+//@   ensures err == nil ==> r != nil && r == st_curpart(s)
+//@ func (v *ParticipationRegistryView) Raw() (r, err)
+//@   trusted
+//@   ensures (err != nil) == part_raw_err(v)
+//@   ensures err == nil ==> eqseq(r, part_raw(v))
+// the same sums with the flag fixed (timely source = 1, target = 2, head = 4)
+//@ defrec part_sum1(fl FlatsA, pr PartT, act VIdxsA, k int) int = ite(k <= 0, 0, wadd64(part_sum1(fl, pr, act, k - 1), ite(!fl[act[k - 1]].Slashed && pr[act[k - 1]] & 1 != 0, fl[act[k - 1]].EffectiveBalance, 0)))
+//@ defrec part_sum2(fl FlatsA, pr PartT, act VIdxsA, k int) int = ite(k <= 0, 0, wadd64(part_sum2(fl, pr, act, k - 1), ite(!fl[act[k - 1]].Slashed && pr[act[k - 1]] & 2 != 0, fl[act[k - 1]].EffectiveBalance, 0)))
+//@ defrec part_sum4(fl FlatsA, pr PartT, act VIdxsA, k int) int = ite(k <= 0, 0, wadd64(part_sum4(fl, pr, act, k - 1), ite(!fl[act[k - 1]].Slashed && pr[act[k - 1]] & 4 != 0, fl[act[k - 1]].EffectiveBalance, 0)))
+//@ sort FlatA = common.FlatValidator
+//@ define att_eligible(f FlatA, prev int) bool = (f.ActivationEpoch <= prev && prev < f.ExitEpoch) || (f.Slashed && prev + 1 < f.WithdrawableEpoch)
+//@ defrec att_elig_cnt(fl FlatsA, prev int, i int) int = ite(i <= 0, 0, att_elig_cnt(fl, prev, i - 1) + ite(att_eligible(fl[i - 1], prev), 1, 0))
+
 // BEGIN C18 generated (tools/gen_c18.py in /verif)
 // cancelled: a context cancelled before the call makes it fail; surfaced: a cancellation observed by a poll
 // during the call makes it fail; polled: success after a poll means the context was not cancelled at entry.
@@ -168,7 +203,7 @@ package altair
 //@   assigns ghost(n_set_bal)
 
 //@ func ComputeEpochAttesterData(ctx, spec, epc, flats, state) (r0, err)
-//@   property C18
+//@   property C18 C02
 //@   panics off
 //@   requires ctx != nil
 //@   opt weakcalls
@@ -180,6 +215,24 @@ package altair
 //@   loop *
 //@     invariant ctx_t >= old(ctx_t) && (old(ctx_seen) || !ctx_seen)
 //@     invariant ctx_t > old(ctx_t) ==> !ctx_cancelled(ctx, old(ctx_t))
+//@   opt rangeindex=on
+//@   ensures c02_shape: err == nil && old(spec != nil && epc != nil && state != nil && epc.PreviousEpoch != nil && epc.CurrentEpoch != nil && len(flats) < 4611686018427387904 && epc.PreviousEpoch.Epoch < 4611686018427387904 && len(part_raw(st_prevpart(state))) == len(flats) && len(part_raw(st_curpart(state))) == len(flats) && (forall a :: {epc.PreviousEpoch.ActiveIndices[a]} 0 <= a && a < len(epc.PreviousEpoch.ActiveIndices) ==> epc.PreviousEpoch.ActiveIndices[a] < len(flats)) && (forall a :: {epc.CurrentEpoch.ActiveIndices[a]} 0 <= a && a < len(epc.CurrentEpoch.ActiveIndices) ==> epc.CurrentEpoch.ActiveIndices[a] < len(flats))) ==> r0 != nil && r0.PrevEpoch == old(epc.PreviousEpoch.Epoch) && r0.CurrEpoch == old(epc.CurrentEpoch.Epoch) && eqseq(r0.Flats, flats) && eqseq(r0.PrevParticipation, part_raw(st_prevpart(state))) && eqseq(r0.CurrParticipation, part_raw(st_curpart(state)))
+//@   ensures c02_eligible: err == nil && old(spec != nil && epc != nil && state != nil && epc.PreviousEpoch != nil && epc.CurrentEpoch != nil && len(flats) < 4611686018427387904 && epc.PreviousEpoch.Epoch < 4611686018427387904 && len(part_raw(st_prevpart(state))) == len(flats) && len(part_raw(st_curpart(state))) == len(flats) && (forall a :: {epc.PreviousEpoch.ActiveIndices[a]} 0 <= a && a < len(epc.PreviousEpoch.ActiveIndices) ==> epc.PreviousEpoch.ActiveIndices[a] < len(flats)) && (forall a :: {epc.CurrentEpoch.ActiveIndices[a]} 0 <= a && a < len(epc.CurrentEpoch.ActiveIndices) ==> epc.CurrentEpoch.ActiveIndices[a] < len(flats))) ==> len(r0.EligibleIndices) == att_elig_cnt(flats, old(epc.PreviousEpoch.Epoch), len(flats)) && (forall p :: {att_elig_cnt(flats, old(epc.PreviousEpoch.Epoch), p)} 0 <= p && p < len(flats) && att_eligible(flats[p], old(epc.PreviousEpoch.Epoch)) ==> 0 <= att_elig_cnt(flats, old(epc.PreviousEpoch.Epoch), p) && att_elig_cnt(flats, old(epc.PreviousEpoch.Epoch), p) < len(r0.EligibleIndices) && r0.EligibleIndices[att_elig_cnt(flats, old(epc.PreviousEpoch.Epoch), p)] == p)
+//@   ensures c02_eligible_sorted: err == nil && old(spec != nil && epc != nil && state != nil && epc.PreviousEpoch != nil && epc.CurrentEpoch != nil && len(flats) < 4611686018427387904 && epc.PreviousEpoch.Epoch < 4611686018427387904 && len(part_raw(st_prevpart(state))) == len(flats) && len(part_raw(st_curpart(state))) == len(flats) && (forall a :: {epc.PreviousEpoch.ActiveIndices[a]} 0 <= a && a < len(epc.PreviousEpoch.ActiveIndices) ==> epc.PreviousEpoch.ActiveIndices[a] < len(flats)) && (forall a :: {epc.CurrentEpoch.ActiveIndices[a]} 0 <= a && a < len(epc.CurrentEpoch.ActiveIndices) ==> epc.CurrentEpoch.ActiveIndices[a] < len(flats))) ==> (forall a, b :: {r0.EligibleIndices[a], r0.EligibleIndices[b]} 0 <= a && a < b && b < len(r0.EligibleIndices) ==> r0.EligibleIndices[a] < r0.EligibleIndices[b]) && (forall a :: {r0.EligibleIndices[a]} 0 <= a && a < len(r0.EligibleIndices) ==> r0.EligibleIndices[a] < len(flats) && att_eligible(flats[r0.EligibleIndices[a]], old(epc.PreviousEpoch.Epoch)))
+//@   ensures c02_prev_stake: err == nil && old(spec != nil && epc != nil && state != nil && epc.PreviousEpoch != nil && epc.CurrentEpoch != nil && len(flats) < 4611686018427387904 && epc.PreviousEpoch.Epoch < 4611686018427387904 && len(part_raw(st_prevpart(state))) == len(flats) && len(part_raw(st_curpart(state))) == len(flats) && (forall a :: {epc.PreviousEpoch.ActiveIndices[a]} 0 <= a && a < len(epc.PreviousEpoch.ActiveIndices) ==> epc.PreviousEpoch.ActiveIndices[a] < len(flats)) && (forall a :: {epc.CurrentEpoch.ActiveIndices[a]} 0 <= a && a < len(epc.CurrentEpoch.ActiveIndices) ==> epc.CurrentEpoch.ActiveIndices[a] < len(flats))) ==> r0.PrevEpochUnslashedStake.SourceStake == max(part_sum1(flats, part_raw(st_prevpart(state)), old(epc.PreviousEpoch.ActiveIndices), len(old(epc.PreviousEpoch.ActiveIndices))), spec.EFFECTIVE_BALANCE_INCREMENT) && r0.PrevEpochUnslashedStake.TargetStake == max(part_sum2(flats, part_raw(st_prevpart(state)), old(epc.PreviousEpoch.ActiveIndices), len(old(epc.PreviousEpoch.ActiveIndices))), spec.EFFECTIVE_BALANCE_INCREMENT) && r0.PrevEpochUnslashedStake.HeadStake == max(part_sum4(flats, part_raw(st_prevpart(state)), old(epc.PreviousEpoch.ActiveIndices), len(old(epc.PreviousEpoch.ActiveIndices))), spec.EFFECTIVE_BALANCE_INCREMENT)
+//@   ensures c02_current_target_stake: err == nil && old(spec != nil && epc != nil && state != nil && epc.PreviousEpoch != nil && epc.CurrentEpoch != nil && len(flats) < 4611686018427387904 && epc.PreviousEpoch.Epoch < 4611686018427387904 && len(part_raw(st_prevpart(state))) == len(flats) && len(part_raw(st_curpart(state))) == len(flats) && (forall a :: {epc.PreviousEpoch.ActiveIndices[a]} 0 <= a && a < len(epc.PreviousEpoch.ActiveIndices) ==> epc.PreviousEpoch.ActiveIndices[a] < len(flats)) && (forall a :: {epc.CurrentEpoch.ActiveIndices[a]} 0 <= a && a < len(epc.CurrentEpoch.ActiveIndices) ==> epc.CurrentEpoch.ActiveIndices[a] < len(flats))) ==> r0.CurrEpochUnslashedTargetStake == max(part_sum2(flats, part_raw(st_curpart(state)), old(epc.CurrentEpoch.ActiveIndices), len(old(epc.CurrentEpoch.ActiveIndices))), spec.EFFECTIVE_BALANCE_INCREMENT)
+//@   loop 1
+//@     invariant old(spec != nil && epc != nil && state != nil && epc.PreviousEpoch != nil && epc.CurrentEpoch != nil && len(flats) < 4611686018427387904 && epc.PreviousEpoch.Epoch < 4611686018427387904 && len(part_raw(st_prevpart(state))) == len(flats) && len(part_raw(st_curpart(state))) == len(flats) && (forall a :: {epc.PreviousEpoch.ActiveIndices[a]} 0 <= a && a < len(epc.PreviousEpoch.ActiveIndices) ==> epc.PreviousEpoch.ActiveIndices[a] < len(flats)) && (forall a :: {epc.CurrentEpoch.ActiveIndices[a]} 0 <= a && a < len(epc.CurrentEpoch.ActiveIndices) ==> epc.CurrentEpoch.ActiveIndices[a] < len(flats))) ==> (out != nil && 0 <= i && i <= len(flats) && len(out.EligibleIndices) == att_elig_cnt(flats, prevEpoch, i) && len(out.EligibleIndices) <= i && prevEpoch == epc.PreviousEpoch.Epoch && out.PrevEpoch == prevEpoch && out.CurrEpoch == epc.CurrentEpoch.Epoch && eqseq(out.Flats, flats))
+//@     invariant old(spec != nil && epc != nil && state != nil && epc.PreviousEpoch != nil && epc.CurrentEpoch != nil && len(flats) < 4611686018427387904 && epc.PreviousEpoch.Epoch < 4611686018427387904 && len(part_raw(st_prevpart(state))) == len(flats) && len(part_raw(st_curpart(state))) == len(flats) && (forall a :: {epc.PreviousEpoch.ActiveIndices[a]} 0 <= a && a < len(epc.PreviousEpoch.ActiveIndices) ==> epc.PreviousEpoch.ActiveIndices[a] < len(flats)) && (forall a :: {epc.CurrentEpoch.ActiveIndices[a]} 0 <= a && a < len(epc.CurrentEpoch.ActiveIndices) ==> epc.CurrentEpoch.ActiveIndices[a] < len(flats))) ==> (out.PrevEpochUnslashedStake.SourceStake == 0 && out.PrevEpochUnslashedStake.TargetStake == 0 && out.PrevEpochUnslashedStake.HeadStake == 0 && out.CurrEpochUnslashedTargetStake == 0)
+//@     invariant old(spec != nil && epc != nil && state != nil && epc.PreviousEpoch != nil && epc.CurrentEpoch != nil && len(flats) < 4611686018427387904 && epc.PreviousEpoch.Epoch < 4611686018427387904 && len(part_raw(st_prevpart(state))) == len(flats) && len(part_raw(st_curpart(state))) == len(flats) && (forall a :: {epc.PreviousEpoch.ActiveIndices[a]} 0 <= a && a < len(epc.PreviousEpoch.ActiveIndices) ==> epc.PreviousEpoch.ActiveIndices[a] < len(flats)) && (forall a :: {epc.CurrentEpoch.ActiveIndices[a]} 0 <= a && a < len(epc.CurrentEpoch.ActiveIndices) ==> epc.CurrentEpoch.ActiveIndices[a] < len(flats))) ==> (forall p :: {att_elig_cnt(flats, prevEpoch, p)} 0 <= p && p < i && att_eligible(flats[p], prevEpoch) ==> 0 <= att_elig_cnt(flats, prevEpoch, p) && att_elig_cnt(flats, prevEpoch, p) < len(out.EligibleIndices) && out.EligibleIndices[att_elig_cnt(flats, prevEpoch, p)] == p)
+//@     invariant old(spec != nil && epc != nil && state != nil && epc.PreviousEpoch != nil && epc.CurrentEpoch != nil && len(flats) < 4611686018427387904 && epc.PreviousEpoch.Epoch < 4611686018427387904 && len(part_raw(st_prevpart(state))) == len(flats) && len(part_raw(st_curpart(state))) == len(flats) && (forall a :: {epc.PreviousEpoch.ActiveIndices[a]} 0 <= a && a < len(epc.PreviousEpoch.ActiveIndices) ==> epc.PreviousEpoch.ActiveIndices[a] < len(flats)) && (forall a :: {epc.CurrentEpoch.ActiveIndices[a]} 0 <= a && a < len(epc.CurrentEpoch.ActiveIndices) ==> epc.CurrentEpoch.ActiveIndices[a] < len(flats))) ==> (forall a :: {out.EligibleIndices[a]} 0 <= a && a < len(out.EligibleIndices) ==> out.EligibleIndices[a] < i && att_eligible(flats[out.EligibleIndices[a]], prevEpoch))
+//@     invariant old(spec != nil && epc != nil && state != nil && epc.PreviousEpoch != nil && epc.CurrentEpoch != nil && len(flats) < 4611686018427387904 && epc.PreviousEpoch.Epoch < 4611686018427387904 && len(part_raw(st_prevpart(state))) == len(flats) && len(part_raw(st_curpart(state))) == len(flats) && (forall a :: {epc.PreviousEpoch.ActiveIndices[a]} 0 <= a && a < len(epc.PreviousEpoch.ActiveIndices) ==> epc.PreviousEpoch.ActiveIndices[a] < len(flats)) && (forall a :: {epc.CurrentEpoch.ActiveIndices[a]} 0 <= a && a < len(epc.CurrentEpoch.ActiveIndices) ==> epc.CurrentEpoch.ActiveIndices[a] < len(flats))) ==> (forall a, b :: {out.EligibleIndices[a], out.EligibleIndices[b]} 0 <= a && a < b && b < len(out.EligibleIndices) ==> out.EligibleIndices[a] < out.EligibleIndices[b])
+//@   loop 2
+//@     invariant old(spec != nil && epc != nil && state != nil && epc.PreviousEpoch != nil && epc.CurrentEpoch != nil && len(flats) < 4611686018427387904 && epc.PreviousEpoch.Epoch < 4611686018427387904 && len(part_raw(st_prevpart(state))) == len(flats) && len(part_raw(st_curpart(state))) == len(flats) && (forall a :: {epc.PreviousEpoch.ActiveIndices[a]} 0 <= a && a < len(epc.PreviousEpoch.ActiveIndices) ==> epc.PreviousEpoch.ActiveIndices[a] < len(flats)) && (forall a :: {epc.CurrentEpoch.ActiveIndices[a]} 0 <= a && a < len(epc.CurrentEpoch.ActiveIndices) ==> epc.CurrentEpoch.ActiveIndices[a] < len(flats))) ==> (out != nil && eqseq(prevEpochParticipation, part_raw(st_prevpart(state))) && eqseq(currEpochParticipation, part_raw(st_curpart(state))))
+//@     invariant old(spec != nil && epc != nil && state != nil && epc.PreviousEpoch != nil && epc.CurrentEpoch != nil && len(flats) < 4611686018427387904 && epc.PreviousEpoch.Epoch < 4611686018427387904 && len(part_raw(st_prevpart(state))) == len(flats) && len(part_raw(st_curpart(state))) == len(flats) && (forall a :: {epc.PreviousEpoch.ActiveIndices[a]} 0 <= a && a < len(epc.PreviousEpoch.ActiveIndices) ==> epc.PreviousEpoch.ActiveIndices[a] < len(flats)) && (forall a :: {epc.CurrentEpoch.ActiveIndices[a]} 0 <= a && a < len(epc.CurrentEpoch.ActiveIndices) ==> epc.CurrentEpoch.ActiveIndices[a] < len(flats))) ==> (out.CurrEpochUnslashedTargetStake == part_sum2(flats, part_raw(st_curpart(state)), epc.PreviousEpoch.ActiveIndices, rangeindex + 1))
+//@     invariant old(spec != nil && epc != nil && state != nil && epc.PreviousEpoch != nil && epc.CurrentEpoch != nil && len(flats) < 4611686018427387904 && epc.PreviousEpoch.Epoch < 4611686018427387904 && len(part_raw(st_prevpart(state))) == len(flats) && len(part_raw(st_curpart(state))) == len(flats) && (forall a :: {epc.PreviousEpoch.ActiveIndices[a]} 0 <= a && a < len(epc.PreviousEpoch.ActiveIndices) ==> epc.PreviousEpoch.ActiveIndices[a] < len(flats)) && (forall a :: {epc.CurrentEpoch.ActiveIndices[a]} 0 <= a && a < len(epc.CurrentEpoch.ActiveIndices) ==> epc.CurrentEpoch.ActiveIndices[a] < len(flats))) ==> (out.PrevEpochUnslashedStake.SourceStake == part_sum1(flats, part_raw(st_prevpart(state)), epc.PreviousEpoch.ActiveIndices, rangeindex + 1))
+//@     invariant old(spec != nil && epc != nil && state != nil && epc.PreviousEpoch != nil && epc.CurrentEpoch != nil && len(flats) < 4611686018427387904 && epc.PreviousEpoch.Epoch < 4611686018427387904 && len(part_raw(st_prevpart(state))) == len(flats) && len(part_raw(st_curpart(state))) == len(flats) && (forall a :: {epc.PreviousEpoch.ActiveIndices[a]} 0 <= a && a < len(epc.PreviousEpoch.ActiveIndices) ==> epc.PreviousEpoch.ActiveIndices[a] < len(flats)) && (forall a :: {epc.CurrentEpoch.ActiveIndices[a]} 0 <= a && a < len(epc.CurrentEpoch.ActiveIndices) ==> epc.CurrentEpoch.ActiveIndices[a] < len(flats))) ==> (out.PrevEpochUnslashedStake.TargetStake == part_sum2(flats, part_raw(st_prevpart(state)), epc.PreviousEpoch.ActiveIndices, rangeindex + 1))
+//@     invariant old(spec != nil && epc != nil && state != nil && epc.PreviousEpoch != nil && epc.CurrentEpoch != nil && len(flats) < 4611686018427387904 && epc.PreviousEpoch.Epoch < 4611686018427387904 && len(part_raw(st_prevpart(state))) == len(flats) && len(part_raw(st_curpart(state))) == len(flats) && (forall a :: {epc.PreviousEpoch.ActiveIndices[a]} 0 <= a && a < len(epc.PreviousEpoch.ActiveIndices) ==> epc.PreviousEpoch.ActiveIndices[a] < len(flats)) && (forall a :: {epc.CurrentEpoch.ActiveIndices[a]} 0 <= a && a < len(epc.CurrentEpoch.ActiveIndices) ==> epc.CurrentEpoch.ActiveIndices[a] < len(flats))) ==> (out.PrevEpochUnslashedStake.HeadStake == part_sum4(flats, part_raw(st_prevpart(state)), epc.PreviousEpoch.ActiveIndices, rangeindex + 1))
 
 //@ func ComputeFlagDeltas(ctx, spec, epc, attesterData, flag, weight, isInactivityLeak) (r0, err)
 //@   property C18 C02
